@@ -68,7 +68,7 @@ theorem pump_withLog (fuel : Nat) (s : St) (L : List Entry) :
                   pump fuel { s with held := none, delivered := s.delivered ++ [(k, b)], hwm := k } := by
                 simp [pump, hl, hh, hk, hd, hup]
               rw [h1, h2, ih]
-            · by_cases hmr : s.maxRetries ≠ 0
+            · by_cases hmr : givesUpOf s.maxRetries s.giveUpOnRejection s.failStatus = true
               · have h1 : pump (fuel + 1) (withLog s L) =
                     pump fuel (withLog { s with held := none, dropped := s.dropped ++ [(k, b)] } L) := by
                   simp [pump, withLog, hl, hh, hk, hd, hup, hmr]
